@@ -20,7 +20,9 @@ NoSched == <<>>
 Init == sched = NoSched /\ clock = <<0, 0>> /\ last = NoLast /\ l = 1 /\ bad = <<>>
 
 Advance(c, d) == LET t == c[2] + d IN <<c[1] + (t \div 86400), t % 86400>>
-IsPair(v) == DOMAIN v = {1, 2}
+\* a next() result is logged as a record: [fire |-> <<dn, minute of day>>], [none |-> TRUE], [panic |-> ..] or [odd |-> ..]
+\* (a value that is not a whole minute at offset 0)
+Fired(r) == "fire" \in DOMAIN r
 
 New == /\ Rec[l].ev = "new"
        /\ LET r == Recognize(Rec[l].expr) IN
@@ -37,16 +39,18 @@ Tick == /\ Rec[l].ev = "tick"
 NextUnjudged == /\ Rec[l].ev = "next" /\ sched = NoSched
                 /\ UNCHANGED <<sched, clock, last, bad>>
 
+Agrees(r) == Fired(r) /\ r.fire = IterNext(sched, clock, last)
+
 NextOk == /\ Rec[l].ev = "next" /\ sched # NoSched
-          /\ Rec[l].res = IterNext(sched, clock, last)
-          /\ last' = Rec[l].res
+          /\ Agrees(Rec[l].res)
+          /\ last' = Rec[l].res.fire
           /\ UNCHANGED <<sched, clock, bad>>
 
 NextDiverge == /\ Rec[l].ev = "next" /\ sched # NoSched
-               /\ Rec[l].res # IterNext(sched, clock, last)
+               /\ ~Agrees(Rec[l].res)
                /\ bad' = Append(bad, [i |-> Rec[l].i, event |-> Rec[l],
                                       expected |-> IterNext(sched, clock, last), clock |-> clock, last |-> last])
-               /\ last' = IF IsPair(Rec[l].res) THEN Rec[l].res ELSE last      \* resynchronise
+               /\ last' = IF Fired(Rec[l].res) THEN Rec[l].res.fire ELSE last      \* resynchronise
                /\ UNCHANGED <<sched, clock>>
 
 Next == l <= Len(Rec) /\ (New \/ Tick \/ NextUnjudged \/ NextOk \/ NextDiverge) /\ l' = l + 1
